@@ -452,6 +452,68 @@ def local_failures(ctx):
         ctx.report('wrong-completion', 'call completed %d times' % good_before.fired, {}, case)
 
 
+def fire_and_forget(ctx):
+    """Calls that expect no reply complete at once (with None); given a deadline as well, they are complete all the same:
+    no timer and no bookkeeping is left behind, and nothing fires when the deadline passes - also beside ordinary calls."""
+    case = {'kind': 'fire-and-forget'}
+    peer = clientfix.Peer().ready()
+    conn = peer.proto
+    peer.take()
+    timers0 = len(CLOCK.getDelayedCalls())
+    ordinary = clientfix.Outcome(conn.callRemote('/obj', 'Ordinary', interface='org.verif.I', destination='org.verif.Peer',
+                                                 timeout=9.0))
+    o_serial = [m.serial for m in peer.take() if m.fields.get('member') == 'Ordinary']
+    outs = []
+    for i, kw in enumerate([{'expectReply': False}, {'expectReply': False, 'timeout': 5.0},
+                            {'expectReply': False, 'timeout': 0.5, 'autoStart': False},
+                            {'expectReply': False, 'timeout': 5.0, 'signature': 's', 'body': ['x']}]):
+        ctx.count('evaluations')
+        try:
+            outs.append((kw, clientfix.Outcome(conn.callRemote('/obj', 'Forget%d' % i, interface='org.verif.I',
+                                                               destination='org.verif.Peer', **kw))))
+        except Exception as e:
+            ctx.report(None, 'callRemote(%r) raised %r' % (kw, e), {'kw': repr(kw)}, case)
+            return
+    written = [m for m in peer.take() if m.fields.get('member', '').startswith('Forget')]
+    w = {'calls': [repr(kw) for kw, _ in outs], 'timers_before': timers0, 'timers_now': len(CLOCK.getDelayedCalls()),
+         'pending': len(conn._pendingCalls)}
+    if len(written) != len(outs) or any(m.flags & 1 != 1 for m in written):
+        ctx.report('noreply-not-sent', '%d no-reply calls wrote %d messages with flags %r' % (
+            len(outs), len(written), [m.flags for m in written]), w, case)
+        return
+    for kw, o in outs:
+        if o.results != [('ok', None)]:
+            ctx.report('wrong-completion', 'a call expecting no reply (%r) completed with %r' % (kw, o.results), w, case)
+            return
+    # only the ordinary call's deadline timer and table entry may exist now
+    if len(CLOCK.getDelayedCalls()) != timers0 + 1 or len(conn._pendingCalls) != 1:
+        ctx.report('timer-left', 'after %d no-reply calls completed, %d timers (expected %d) and %d pending entries (expected '
+                   '1) exist' % (len(outs), len(CLOCK.getDelayedCalls()), timers0 + 1, len(conn._pendingCalls)), w, case)
+        return
+    try:
+        CLOCK.advance(6.0)
+    except Exception as e:
+        ctx.report('timer-callback-raised', 'a timer raised %r when the deadline of a completed no-reply call passed' % e,
+                   w, case)
+        return
+    if any(o.fired != 1 for _, o in outs) or ordinary.fired:
+        ctx.report('fired-after-completion', 'something fired when the deadlines of completed no-reply calls passed: %r' % (
+            [o.results for _, o in outs],), w, case)
+        return
+    if o_serial:
+        peer.send(RM.build(RM.METHOD_RETURN, 88, {'reply_serial': o_serial[0]}, 's', ['still fine']))
+    if ordinary.results != [('ok', 'still fine')]:
+        ctx.report('wrong-completion', 'the ordinary call beside the no-reply calls completed with %r' % (ordinary.results,),
+                   w, case)
+        return
+    if len(CLOCK.getDelayedCalls()) != timers0 or conn._pendingCalls:
+        ctx.report('timer-left', 'timers %d (expected %d), pending entries %d after everything completed' % (
+            len(CLOCK.getDelayedCalls()), timers0, len(conn._pendingCalls)), w, case)
+        return
+    ctx.count('fire_and_forget_ok', len(outs))
+    peer.lose()
+
+
 def synchronous_replies(ctx):
     """An in-process peer (loop-back transport, embedded bus) answers while the call is still being written: the reply
     arrives re-entrantly from inside transport.write().  The call completes once with that reply all the same, and no
@@ -620,6 +682,7 @@ def run(ctx):
         long_history(ctx)
         local_failures(ctx)
         synchronous_replies(ctx)
+        fire_and_forget(ctx)
     ctx.sample({'calls': [c.describe() for c in build_calls(random.Random(1), 2, [('R', 'D'), ('T', 'L')])],
                 'order': [[0, 'R'], [1, 'T'], ['U', 'E'], [0, 'D'], [1, 'L'], ['X', 'X']]})
     for k in ('first_return', 'first_error', 'first_timeout', 'first_loss'):
@@ -631,6 +694,12 @@ def replay(ctx, rp):
     global CLOCK
     CLOCK = clientfix.install_clock()
     w = rp.get('witness') or {}
+    kind = (rp.get('case') or {}).get('kind')
+    special = {'fire-and-forget': fire_and_forget, 'sync-reply': synchronous_replies, 'long-history': long_history,
+               'local-failure': local_failures}
+    if kind in special:
+        special[kind](ctx)
+        return
     calls = [Call(d['idx'], tuple(d['script']), d['body'], d['ret'], d['timeout'], d['little']) for d in w['calls']]
     order = [(a, b) for a, b in w['order']]
     execute(ctx, calls, order, rp.get('case'))
